@@ -161,6 +161,26 @@ func HarnessC14Real() {
 			ogTitle = c
 		}
 	}
+	// article:* properties, before or after og:type
+	artOrder := vx.Choose("article", 4)
+	artSec := `<meta property="article:section" content="og-section">`
+	artTime := `<meta property="article:published_time" content="2020-01-02">`
+	before := func(x string) {
+		if strings.Contains(head, `<meta property="og:type"`) {
+			head = strings.Replace(head, `<meta property="og:type"`, x+`<meta property="og:type"`, 1)
+		} else {
+			head = x + head
+		}
+	}
+	switch artOrder {
+	case 1: // both after og:type
+		head += artSec + artTime
+	case 2: // both before og:type (the parser ignores article:* tags it meets before og:type: not claimed)
+		before(artSec + artTime)
+	case 3: // one before, one after
+		before(artSec)
+		head += artTime
+	}
 	body := ""
 	schema := vx.Choose("schema", 3)
 	switch schema {
@@ -168,6 +188,10 @@ func HarnessC14Real() {
 		body += `<div itemscope itemtype="http://schema.org/Article"><h1 itemprop="headline">schema-title</h1><span itemprop="author" itemscope itemtype="http://schema.org/Person"><span itemprop="name">schema-author</span></span><p>text</p></div>`
 	case 2:
 		body += `<div itemscope itemtype="http://schema.org/Article"><span itemprop="name">schema-name</span><p>text</p></div>`
+	}
+	relAuthor := vx.Choose("relauthor", 2) == 1
+	if relAuthor {
+		body += `<a rel="author" href="/ann">rel-author</a>`
 	}
 	ie := vx.Choose("ie", 2) == 1
 	if ie {
@@ -206,6 +230,8 @@ func HarnessC14Real() {
 	switch {
 	case schema == 1:
 		wantAuthor = "schema-author"
+	case relAuthor:
+		wantAuthor = "rel-author" // schema.org's rel=author fallback outranks the IE byline
 	case ie:
 		wantAuthor = "ie-author"
 	}
@@ -215,6 +241,13 @@ func HarnessC14Real() {
 		wantCopy = "ie-copy"
 	}
 	vx.Assert(info.Copyright == wantCopy, "Copyright does not come from the IE Reading View tag")
+	if ogAll && (artOrder == 1 || artOrder == 3) {
+		vx.Cover("og-article")
+		vx.Assert(info.Article.PublishedTime == "2020-01-02", "an article:* property that follows og:type in a valid OpenGraph block is missing from the article record")
+		if artOrder == 1 {
+			vx.Assert(info.Article.Section == "og-section", "the article record of a valid OpenGraph block is incomplete")
+		}
+	}
 	if ogAll {
 		vx.Cover("og-valid")
 		vx.Assert(info.URL == "http://h.t/og" && info.Type == "Article", "valid OpenGraph block is not used for URL/Type")
